@@ -56,11 +56,47 @@ func do(name string, args ...string) string {
 	return res
 }
 
+// split: text → slice handed to the library. While trackSlices is on, every slice is remembered with a copy so that the
+// det op can verify that the library left its argument slices unmodified.
+var (
+	trackSlices bool
+	tracked     [][2][]string
+)
+
+// shareSlices: split returns one shared slice per distinct text (filled sequentially, read-only afterwards), so that
+// concurrent calls of the library really share their argument slices (C19).
+var (
+	shareSlices bool
+	sliceCache  = map[string][]string{}
+	cacheFrozen bool
+)
+
 func split(s string) []string {
-	if s == "[]" {
-		return []string{}
+	if shareSlices {
+		if r, ok := sliceCache[s]; ok {
+			return r
+		}
+		if cacheFrozen {
+			return splitFresh(s)
+		}
+		r := splitFresh(s)
+		sliceCache[s] = r
+		return r
 	}
-	return strings.Split(s, ",")
+	return splitFresh(s)
+}
+
+func splitFresh(s string) []string {
+	var r []string
+	if s == "[]" {
+		r = []string{}
+	} else {
+		r = strings.Split(s, ",")
+	}
+	if trackSlices {
+		tracked = append(tracked, [2][]string{r, append([]string(nil), r...)})
+	}
+	return r
 }
 
 func atoi(s string) int64 {
@@ -140,13 +176,22 @@ func i64s(l []int64) string {
 	return join(s)
 }
 
+func newBufWriter(sb *strings.Builder) *bufio.Writer { return bufio.NewWriterSize(sb, 1<<20) }
+
 func main() {
 	fam := flag.String("fam", "", "comma separated op families")
 	n := flag.Int("n", 1000, "cases per family")
 	seed := flag.Int64("seed", 1, "PRNG seed")
 	list := flag.Bool("list", false, "list families")
 	rep := flag.String("replay", "", "re-execute the case lines of this file (last field = old result, dropped)")
+	conc := flag.Int("conc", 0, "run the generated cases again on this many goroutines with shared argument slices (C19)")
 	flag.Parse()
+	if *conc > 0 {
+		out = bufio.NewWriterSize(os.Stdout, 1<<20)
+		defer out.Flush()
+		runConcurrent(*fam, *n, *seed, *conc)
+		return
+	}
 	if *rep != "" {
 		out = bufio.NewWriterSize(os.Stdout, 1<<20)
 		defer out.Flush()
